@@ -596,6 +596,9 @@ class ClientRequest(Unit):
         for k, s, p in outs:
             ex.oblige(s, 'exit: the in-flight table is not touched (a timed-out request stays registered until its response arrives, so its id cannot be reused)', s.ghost.get('writes', z3.IntVal(0)) == 0)
             enq = s.ghost['enq']
+            ex.oblige(s, 'exit: the request\'s future is left as it is -- never cancelled, also not on a response timeout: it stays in the in-flight table, and the receive loop resolves '
+                         'whatever it finds there (set_result on a cancelled future raises InvalidStateError in the I/O thread: every other request of the client would go unanswered)',
+                      z3.BoolVal(not s.ghost.get('cancelled')))
             if k in ('normal', 'return'):
                 ex.oblige(s, 'exit: enqueued exactly its own (path, payload); returns the result of its own future (or None when no response is wanted)',
                           z3.And(z3.BoolVal(len(enq) == 1), enq[0][0] == self.path, enq[0][1] == self.data, z3.Or(box(ex, p) == NONE, z3.And(fut_ok(f), box(ex, p) == fut_val(f)))) if len(enq) == 1 else z3.BoolVal(False))
@@ -610,6 +613,10 @@ class ResultModel:
 
     def call(self, ex, st, recv, name, args, kwargs, node):
         from pyvc.models import fut_ok, fut_val, fut_exc
+        if name == 'cancel':
+            st = st.fork()
+            st.ghost['cancelled'] = st.ghost.get('cancelled', ()) + (recv,)
+            return [('ok', st, fresh('cancel_result', z3.BoolSort()))]
         if name != 'result':
             raise Unsupported(f'future.{name}()')
         s1 = st.fork().assume(fut_ok(recv))
@@ -1174,6 +1181,31 @@ class PipeInit(Unit):
         self.path = z3.String('path')
         st.env.update(self=Rec(ex, 'self'), path=self.path)
         st.ghost['init'] = ()
+        # pathlib, should the code use it: Path(x) stands for the text x; with_suffix REPLACES whatever follows the last dot of the last component
+        # (so it is not `x + suffix`: 'link.east' and 'link.west' both give 'link.1'): an uninterpreted function of the text
+        with_suffix = z3.Function('Path_with_suffix', z3.StringSort(), z3.StringSort(), z3.StringSort())
+
+        class PathObj(Obj):
+            def __init__(self_, e, text):
+                super().__init__(e, 'Path')
+                self_.text = text
+
+            def havoc(self_, e, s):
+                pass
+
+            def val(self_):
+                return box(ex, self_.text)
+
+            def m_with_suffix(self_, e, s, a, k, n):
+                return [('ok', s, PathObj(e, with_suffix(self_.text, a[0])))]
+
+        def mkpath(e, s, a, k, n):
+            x = unbox_handle(e, a[0])
+            return [('ok', s, x if isinstance(x, PathObj) else PathObj(e, a[0]))]
+        self.PathObj = PathObj
+        ex.globals['Path'] = Fn(mkpath)
+        ex.globals['str'] = Fn(lambda e, s, a, k, n: [('ok', s, unbox_handle(e, a[0]).text if isinstance(unbox_handle(e, a[0]), PathObj) else a[0])])
+        ex.globals['os.fspath'] = ex.globals['str']
         return st
 
     def on_call(self, ex, st, e, src):
@@ -1190,8 +1222,10 @@ class PipeInit(Unit):
             if k in ('normal', 'return'):
                 i = s.ghost['init']
                 ok = len(i) == 1 and len(i[0]) == 2
-                ex.oblige(s, f'exit: reads path{self.suffixes[0]} and writes path{self.suffixes[1]} (the client does the reverse)',
-                          z3.And(i[0][0] == z3.Concat(self.path, z3.StringVal(self.suffixes[0])), i[0][1] == z3.Concat(self.path, z3.StringVal(self.suffixes[1]))) if ok else z3.BoolVal(False))
+                text = lambda v: (unbox_handle(ex, v).text if isinstance(unbox_handle(ex, v), self.PathObj) else v)
+                ex.oblige(s, f'exit: reads path{self.suffixes[0]} and writes path{self.suffixes[1]} (the client does the reverse): the two FIFO names are the caller\'s path with the suffix APPENDED, '
+                             'so different paths never share a FIFO',
+                          z3.And(text(i[0][0]) == z3.Concat(self.path, z3.StringVal(self.suffixes[0])), text(i[0][1]) == z3.Concat(self.path, z3.StringVal(self.suffixes[1]))) if ok else z3.BoolVal(False))
 
 
 class PipeClientInit(PipeInit):
